@@ -487,6 +487,23 @@ pub fn main_entry() -> i32 {
         "replay" => replay_main(&args[1..]),
         "emit-fingerprint" => crate::props::c14::emit_fingerprint(&args[1]),
         "emit-corpus" => crate::props::c13::emit_corpus(&args[1]),
+        // `dvcheck fuzz-one <Cxx> <file>`: run one libFuzzer input (bytes = random stream of the property's strategy)
+        "fuzz-one" => {
+            install_panic_hook();
+            let data = std::fs::read(&args[2]).unwrap_or_default();
+            let known = KnownFindings::load(&verif_root().join("known_findings.json"));
+            let mut ctx = Ctx::new(&args[1], profile_name(), Tier::Thorough, 0, 0, 1, known);
+            match props::fuzz_bytes(&args[1], &data, &mut ctx) {
+                Some((label, v, case)) => {
+                    println!("REPRODUCED {}", serde_json::to_string(&json!({"label": label, "violation": v, "case": case})).unwrap());
+                    1
+                }
+                None => {
+                    println!("PASS ({} evaluations)", ctx.res.evaluations);
+                    0
+                }
+            }
+        }
         "list" => {
             for id in props::all_ids() {
                 println!("{id}");
